@@ -720,6 +720,13 @@ class IntegroPINNCondition(Condition):
         self.integral_sampler = integral_sampler
 
         self.data_functions = self._setup_data_functions(data_functions, self.sampler)
+        if isinstance(self.sampler, StaticSampler):
+            # forward works with points of the shape (N, 1, dim), give the values that
+            # were evaluated once on the (N, dim) points the same layout
+            for fun in self.data_functions:
+                self.data_functions[fun] = UserFunction(
+                    self.data_functions[fun].fun.unsqueeze(1)
+                )
 
         if self.sampler.is_adaptive:
             self.last_unreduced_loss = None
